@@ -38,6 +38,9 @@ F_UNIONSER = "C10-union-serialisation"
 F_DEFAULT = "C10-default-not-normalised"
 F_DUMPFLOAT = "C10-json-dump-nonfinite-float"
 F_SETORDER = "C10-set-dump-order"
+F_NESTEDLIST = "C10-nested-list-subclass-default"
+F_JSONNS = "C10-json-dump-namespace-in-mixed-container"
+MIXED_LABELS = ("List[Optional[Base]]", "Dict[str,Optional[Base]]", "Tuple[Base,int]", "List[List[Base]]")
 
 
 def ty_has(desc, pred):
@@ -501,6 +504,193 @@ def registered_family(ctx: Ctx):
     ctx.extra["registered_family_cases"] = n
 
 
+# ---------------------------------------------------------------- subclass-typed values (real code only)
+_FAMILY_MOD = [None]
+FAMILY_SRC = '''
+class Base:
+    def __init__(self, width: int = 16, depth: int = 2):
+        self.width = width
+        self.depth = depth
+
+
+class SubA(Base):
+    def __init__(self, kernel: int = 3, **kwargs):
+        super().__init__(**kwargs)
+        self.kernel = kernel
+
+
+class SubB(Base):
+    def __init__(self, name: str = "b", rate: float = 0.5, width: int = 8):
+        super().__init__(width=width)
+        self.name = name
+        self.rate = rate
+'''
+
+
+def family_module():
+    """the class family lives in a real module file of a temporary package dir (removed at exit)"""
+    if _FAMILY_MOD[0] is None:
+        import atexit
+        import importlib
+        import os
+        import shutil
+        import sys
+        import tempfile
+
+        d = tempfile.mkdtemp(prefix="c10fam")
+        name = "c10fam_%d" % os.getpid()
+        with open(os.path.join(d, name + ".py"), "w") as f:
+            f.write(FAMILY_SRC)
+        sys.path.insert(0, d)
+        atexit.register(shutil.rmtree, d, True)
+        _FAMILY_MOD[0] = (importlib.import_module(name), name, d)
+    return _FAMILY_MOD[0]
+
+
+def canon_cfg(x):
+    """type-aware snapshot of a configuration value with Namespaces"""
+    from jsonargparse import Namespace
+
+    if x is None:
+        return None
+    if isinstance(x, Namespace):
+        return ["ns", [[k, canon_cfg(v)] for k, v in sorted(vars(x).items())]]
+    if isinstance(x, dict):
+        return ["dict", [[canon_any(k), canon_cfg(v)] for k, v in x.items()]]
+    if isinstance(x, (list, tuple)):
+        return [type(x).__name__, [canon_cfg(y) for y in x]]
+    return [type(x).__name__, repr(x)]
+
+
+def subclass_positions():
+    from typing import Dict, List, Optional, Tuple
+
+    mod, name, _ = family_module()
+    B = mod.Base
+    a0 = {"class_path": name + ".SubA"}
+    a5 = {"class_path": name + ".SubA", "init_args": {"kernel": 5}}
+    b0 = {"class_path": name + ".Base"}
+    bw = {"class_path": name + ".Base", "init_args": {"depth": 7}}
+    sb = {"class_path": name + ".SubB", "init_args": {"name": "x"}}
+    return [
+        ("Base", B, [a0, a5, b0, sb]),
+        ("Optional[Base]", Optional[B], [a0, bw]),
+        ("List[Base]", List[B], [[a0, b0], [a5], [sb, a0, bw]]),
+        ("List[Optional[Base]]", List[Optional[B]], [[a0, None], [None, bw], [a5, None, b0]]),
+        ("Dict[str,Base]", Dict[str, B], [{"enc": a0, "aux": bw}, {"enc": sb}]),
+        ("Dict[str,Optional[Base]]", Dict[str, Optional[B]], [{"enc": a0, "aux": None}, {"enc": None, "aux": a5}]),
+        ("Tuple[Base,int]", Tuple[B, int], [[a0, 4], [bw, 0]]),
+        ("Optional[Tuple[Base,Base]]", Optional[Tuple[B, B]], [[a5, b0], [a0, sb]]),
+        ("List[List[Base]]", List[List[B]], [[[a0], [b0, a5]], [[bw]]]),
+    ]
+
+
+def default_like(value, as_tuple):
+    """a parser default of the same key set / length as `value`, every spec replaced by a Base spec carrying init_args"""
+    from jsonargparse import Namespace
+
+    _, name, _ = family_module()
+    if isinstance(value, dict) and "class_path" in value:
+        return Namespace(class_path=name + ".Base", init_args=Namespace(width=64, depth=2))
+    if isinstance(value, dict):
+        return {k: default_like(v, False) for k, v in value.items()}
+    if isinstance(value, list):
+        items = [default_like(v, False) for v in value]
+        return tuple(items) if as_tuple else items
+    return value
+
+
+def subclass_case(pos_index, val_index, with_default, channel, tmpdir=None):
+    """one case on the real parser: (label, observations) or None when the parse rejects"""
+    import json
+    import os
+
+    import yaml
+    from jsonargparse import ArgumentError, ArgumentParser
+
+    label, T, values = subclass_positions()[pos_index]
+    value = values[val_index]
+    p = ArgumentParser(exit_on_error=False, default_env=False)
+    if with_default:
+        if isinstance(value, dict) and "class_path" in value:      # a subclass-typed argument itself wants a dict default
+            _, name, _ = family_module()
+            dflt = {"class_path": name + ".Base", "init_args": {"width": 64, "depth": 2}}
+        else:
+            dflt = default_like(value, "Tuple" in label)
+        p.add_argument("--k", type=T, default=dflt)
+    else:
+        p.add_argument("--k", type=T)
+    try:
+        if channel == "string":
+            cfg = p.parse_string(yaml.safe_dump({"k": value}))
+        elif channel == "path":
+            _, _, d = family_module()
+            path = os.path.join(d, "cfg_%d_%d_%d.yaml" % (pos_index, val_index, int(with_default)))
+            with open(path, "w") as f:
+                f.write(yaml.safe_dump({"k": value}))
+            cfg = p.parse_path(path)
+        elif channel == "args":
+            cfg = p.parse_args(["--k=" + json.dumps(value)])
+        else:
+            cfg = p.parse_object({"k": copy.deepcopy(value)})
+    except ArgumentError:
+        return None
+    cfg = cfg.clone()
+    first = canon_cfg(cfg.k)
+    out = {"first": first}
+    try:
+        p.validate(cfg.clone())
+        out["validate"] = "ok"
+    except Exception as ex:  # noqa: BLE001
+        out["validate"] = "raises:" + type(ex).__name__
+    try:
+        out["reparse"] = {"ok": canon_cfg(p.parse_object(cfg.clone()).k)}
+    except ArgumentError as ex:
+        out["reparse"] = {"err": "reject", "msg": str(ex)[:160]}
+    except Exception as ex:  # noqa: BLE001
+        out["reparse"] = {"err": "crash:" + type(ex).__name__}
+    for fmt in ("yaml", "json"):
+        try:
+            d1 = p.dump(cfg.clone(), format=fmt)
+            cfg3 = p.parse_string(d1)
+            d2 = p.dump(cfg3, format=fmt)
+            out["dump_" + fmt] = "same" if d1 == d2 else {"d1": d1, "d2": d2}
+        except Exception as ex:  # noqa: BLE001
+            out["dump_" + fmt] = {"exc": type(ex).__name__, "msg": str(ex)[:160]}
+    return out
+
+
+def subclass_family(ctx: Ctx):
+    n = 0
+    for pi, (label, _T, values) in enumerate(subclass_positions()):
+        for vi in range(len(values)):
+            for with_default in (False, True):
+                for channel in ("string", "path", "args", "object"):
+                    sp = subclass_case(pi, vi, with_default, channel)
+                    ctx.count()
+                    if sp is None:
+                        ctx.hist("subclass_family", "rejected")
+                        continue
+                    n += 1
+                    ctx.count(4)
+                    ctx.hist("subclass_family", label)
+                    ctx.nontrivial(jdump(["subclass", label, vi, with_default, channel]))
+                    for what, got in fixed_point_deviations(sp):
+                        if (label == "List[List[Base]]" and with_default and what == "reparse" and channel in ("string", "path")
+                                and ctx.is_open(F_NESTEDLIST)):
+                            ctx.known(F_NESTEDLIST, "List[List[Base]] with a same-shape default: parse_%s result is incomplete, parse_object inherits the default's init_args" % channel)
+                            continue
+                        if (what == "dump_json" and label in MIXED_LABELS and isinstance(got, dict) and got.get("exc") == "TypeError"
+                                and "Namespace is not JSON serializable" in got.get("msg", "") and ctx.is_open(F_JSONNS)):
+                            ctx.known(F_JSONNS, "dump(format='json') raises for a %s value: the subclass spec stays a Namespace" % label)
+                            continue
+                        ctx.violation("subclass-typed value at %s is not a fixed point (%s, first parse by parse_%s%s)" % (
+                            label, what, channel, ", parser default of the same shape" if with_default else ""),
+                            {"kind": "subclass", "position": pi, "label": label, "value": vi, "with_default": with_default, "channel": channel,
+                             "what": what, "first": sp["first"], "got": got})
+    ctx.extra["subclass_family_cases"] = n
+
+
 # ---------------------------------------------------------------- the check
 def run(ctx: Ctx):
     repo_python_path()
@@ -512,6 +702,9 @@ def run(ctx: Ctx):
         "equality of configurations is judged on the typed canonical form (1, 1.0 and True are different values), stricter than Python ==",
         "values at positions typed Any (or Union[..., Any]) are plain data (no Enum members, sets, tuples) for the dump round trip",
         "when a result holds a set with two or more elements, second-pass/serialiser outputs that depend on list(set) order are not compared",
+        "subclass-typed values (a Base/SubA/SubB family in a temporary module) at Base, Optional, List, List[Optional], Dict, Dict[.., Optional], "
+        "Tuple[Base, int], Optional[Tuple[Base, Base]], List[List[Base]] positions, with and without a parser default of the same shape, first parse by "
+        "parse_string / parse_path / parse_args / parse_object, are checked on the real parser only (no model correspondence); no dict_kwargs",
         "registered types (timedelta, range, bytes, bytearray, UUID, complex, pathlib.Path, Decimal with float-exact values) and the restricted "
         "number/string types are checked at leaf / Optional / List positions on the real parser only (no model correspondence); not inside other Unions",
     ]
@@ -616,6 +809,7 @@ def run(ctx: Ctx):
 
     default_family(ctx)
     registered_family(ctx)
+    subclass_family(ctx)
 
     # ---- findings -------------------------------------------------------------
     for f in ctx.open_findings():
@@ -638,6 +832,10 @@ def replay_case(ctx: Ctx, rp, quiet=False):
     kind = rp["kind"]
     if kind == "with-default":
         return replay_default_family(rp)
+    if kind == "subclass":
+        sp = subclass_case(rp["position"], rp["value"], rp["with_default"], rp["channel"])
+        say(jdump(sp)[:2000])
+        return sp is not None and any(w == rp["what"] for w, _ in fixed_point_deviations(sp))
     if kind == "registered":
         sp = registered_case(rp["type"], rp["position"], rp["how"], rp["index"])
         say(jdump(sp)[:1500])
